@@ -11,9 +11,14 @@
 (*   [k |-> "glob", on |-> "name" | "path", pat |-> characters, fold]      *)
 (*   [k |-> "const", v |-> BOOLEAN]   [k |-> "prune"]   [k |-> "quit"]     *)
 (*   [k |-> "print", delim |-> 10 | 0]   [k |-> "printf", fmt |-> chars]   *)
-(* Result: the bytes on standard output.                                   *)
+(*   [k |-> "regex", ast |-> Regex tree, fold]  (syntax: cfg.syn)          *)
+(* print / printf words with file |-> 1 | 2 write to that file instead.    *)
+(* Result: the bytes on standard output and in the files, and the number   *)
+(* of diagnosed failures (exit status).                                    *)
 (***************************************************************************)
 EXTENDS FindExpr, Stat, Printf
+RX == INSTANCE Regex
+TM == INSTANCE Time
 
 TokOf(words, i) == IF words[i].k = "op" THEN words[i].t ELSE "L" \o ToString(i)
 Toks(words) == [i \in DOMAIN words |-> TokOf(words, i)]
@@ -23,20 +28,49 @@ IsAction(w) == w.k \in {"print", "printf"}
 SemHasAction(words) == \E i \in DOMAIN words : IsAction(words[i])
 SemParse(words) == RefParse(Toks(words))
 
-\* one primary on one entry: [v, out (bytes), quit, prune]
+(***************************************************************************)
+(* Output channels: 0 is standard output; 1 and 2 are the files named by   *)
+(* -fprint / -fprint0 / -fprintf (a "print" / "printf" word with a field   *)
+(* file |-> 1 | 2).  A file named on the command line exists after the run *)
+(* even if nothing was written to it.                                      *)
+(***************************************************************************)
+Chans == 0..2
+NoOut == [c \in Chans |-> <<>>]
+OnChan(c, b) == [x \in Chans |-> IF x = c THEN b ELSE <<>>]
+OutCat(a, b) == [c \in Chans |-> a[c] \o b[c]]
+ChanOf(w) == IF "file" \in DOMAIN w THEN w.file ELSE 0
+FilesNamed(words) == {ChanOf(words[i]) : i \in {j \in DOMAIN words : IsAction(words[j])}} \ {0}
+
+(***************************************************************************)
+(* Tests beyond Stat.TestHolds: -size in units (Numeric), the time tests   *)
+(* (Time; node attribute tm = [m |-> <<s, ns>>, c |-> <<s, ns>>], cfg.now),*)
+(* -nouser / -nogroup (cfg.users / cfg.groups: the ids the system knows).  *)
+(***************************************************************************)
+RefNode(tree, cfg, r) == IF tree[r].kind = "l" /\ cfg.mode # "P" /\ tree[r].target # 0 THEN tree[r].target ELSE r
+TestValue(tree, cfg, e, t) ==
+  LET st == tree[e.eff] IN
+  IF t.p = "size" /\ "unit" \in DOMAIN t THEN Cmp(t.form, [v |-> t.n], SizeMeasure([bytes |-> st.size], t.unit))
+  ELSE IF t.p = "age" THEN TM!AgeTest(t.kind, t.unit, t.form, [v |-> t.n], cfg.now, st.tm)
+  ELSE IF t.p = "newer" THEN TM!NewerTest(t.x, t.y, st.tm, tree[RefNode(tree, cfg, t.ref)].tm)
+  ELSE IF t.p = "nouser" THEN st.uid \notin cfg.users
+  ELSE IF t.p = "nogroup" THEN st.gid \notin cfg.groups
+  ELSE TestHolds(tree, cfg, e, t)
+
+\* one primary on one entry: [v, out (per channel), quit, prune]
 SRes(v, out, q, p) == [v |-> v, out |-> out, quit |-> q, prune |-> p]
 WordEval(tree, cfg, start, e, w) ==
-  IF w.k = "test" THEN SRes(TestHolds(tree, cfg, e, w.q), <<>>, FALSE, FALSE)
+  IF w.k = "test" THEN SRes(TestValue(tree, cfg, e, w.q), NoOut, FALSE, FALSE)
   ELSE IF w.k = "glob" THEN
-       SRes(GlobMatch(w.pat, Utf8Decode(IF w.on = "name" THEN NameOf(e.path) ELSE e.path), w.fold), <<>>, FALSE, FALSE)
-  ELSE IF w.k = "const" THEN SRes(w.v, <<>>, FALSE, FALSE)
-  ELSE IF w.k = "prune" THEN SRes(TRUE, <<>>, FALSE, tree[e.eff].kind = "d")
-  ELSE IF w.k = "quit" THEN SRes(TRUE, <<>>, TRUE, FALSE)
-  ELSE IF w.k = "print" THEN SRes(TRUE, e.path \o <<w.delim>>, FALSE, FALSE)
+       SRes(GlobMatch(w.pat, Utf8Decode(IF w.on = "name" THEN NameOf(e.path) ELSE e.path), w.fold), NoOut, FALSE, FALSE)
+  ELSE IF w.k = "regex" THEN SRes(RX!InLang(w.ast, Utf8Decode(e.path), w.fold), NoOut, FALSE, FALSE)
+  ELSE IF w.k = "const" THEN SRes(w.v, NoOut, FALSE, FALSE)
+  ELSE IF w.k = "prune" THEN SRes(TRUE, NoOut, FALSE, tree[e.eff].kind = "d")
+  ELSE IF w.k = "quit" THEN SRes(TRUE, NoOut, TRUE, FALSE)
+  ELSE IF w.k = "print" THEN SRes(TRUE, OnChan(ChanOf(w), e.path \o <<w.delim>>), FALSE, FALSE)
   ELSE \* printf
-       SRes(TRUE, RenderEntry([tree |-> tree, cfg |-> cfg, start |-> start], e, ParseFmt(Utf8(w.fmt)).comps), FALSE, FALSE)
+       SRes(TRUE, OnChan(ChanOf(w), RenderEntry([tree |-> tree, cfg |-> cfg, start |-> start], e, ParseFmt(Utf8(w.fmt)).comps)), FALSE, FALSE)
 
-SSeq(ra, rb) == SRes(rb.v, ra.out \o rb.out, rb.quit, ra.prune \/ rb.prune)
+SSeq(ra, rb) == SRes(rb.v, OutCat(ra.out, rb.out), rb.quit, ra.prune \/ rb.prune)
 RECURSIVE SEval(_, _, _, _, _, _)
 SEval(ast, words, tree, cfg, start, e) ==
   IF ast.op = "leaf" THEN WordEval(tree, cfg, start, e, WordOf(words, ast.t))
@@ -49,38 +83,58 @@ SEval(ast, words, tree, cfg, start, e) ==
 
 \* what find does on one entry: the expression, then -print iff there is no action and it is true
 EntryEval(words, tree, cfg, start, e) ==
-  LET r == IF words = <<>> THEN SRes(TRUE, <<>>, FALSE, FALSE) ELSE SEval(SemParse(words).ast, words, tree, cfg, start, e) IN
-  [out |-> r.out \o (IF ~SemHasAction(words) /\ ~r.quit /\ r.v THEN e.path \o <<10>> ELSE <<>>),
-   quit |-> r.quit, prune |-> ~r.quit /\ r.prune /\ ~cfg.depth]
+  LET r == IF words = <<>> THEN SRes(TRUE, NoOut, FALSE, FALSE) ELSE SEval(SemParse(words).ast, words, tree, cfg, start, e)
+      outs == OutCat(r.out, OnChan(0, IF ~SemHasAction(words) /\ ~r.quit /\ r.v THEN e.path \o <<10>> ELSE <<>>))
+  IN [out |-> outs[0], outs |-> outs, quit |-> r.quit, prune |-> ~r.quit /\ r.prune /\ ~cfg.depth]
 
 \* one starting point: the entries on which -prune is evaluated are found on the unpruned walk (an entry's
 \* evaluation does not depend on other entries), then the walk is cut there; output stops after -quit
 RECURSIVE OutUntilQuit(_, _, _)
 OutUntilQuit(evals, k, acc) ==
-  IF k > Len(evals) THEN [out |-> acc, quit |-> FALSE]
-  ELSE IF evals[k].quit THEN [out |-> acc \o evals[k].out, quit |-> TRUE]
-  ELSE OutUntilQuit(evals, k + 1, acc \o evals[k].out)
+  IF k > Len(evals) THEN [outs |-> acc, quit |-> FALSE]
+  ELSE IF evals[k].quit THEN [outs |-> OutCat(acc, evals[k].outs), quit |-> TRUE]
+  ELSE OutUntilQuit(evals, k + 1, OutCat(acc, evals[k].outs))
 
+\* errs: the diagnosed failures of the walk (a missing starting point, a loop closed by a followed link, a directory
+\* that cannot be listed); after -quit what the rest of the walk would have met is not known (sure = FALSE)
 RootSem(words, tree, cfg, root) ==
-  IF root.node = 0 THEN [out |-> <<>>, quit |-> FALSE]
+  IF root.node = 0 THEN [outs |-> NoOut, quit |-> FALSE, errs |-> 1, sure |-> TRUE]
   ELSE LET plain == [cfg EXCEPT !.prune = {}]
            u == Walk(tree, plain, root.spell, root.node, 0, {}).ents
            pruned == {u[k].path : k \in {j \in DOMAIN u : EntryEval(words, tree, plain, root.spell, u[j]).prune}}
-           w == Walk(tree, [plain EXCEPT !.prune = pruned], root.spell, root.node, 0, {}).ents
+           wk == Walk(tree, [plain EXCEPT !.prune = pruned], root.spell, root.node, 0, {})
+           w == wk.ents
            ev == [k \in DOMAIN w |-> EntryEval(words, tree, plain, root.spell, w[k])]
-       IN OutUntilQuit(ev, 1, <<>>)
+           o == OutUntilQuit(ev, 1, NoOut)
+       IN [outs |-> o.outs, quit |-> o.quit, errs |-> wk.errs, sure |-> ~o.quit \/ wk.errs = 0]
 
 RECURSIVE RootsSem(_, _, _, _, _, _)
 RootsSem(words, tree, cfg, roots, r, acc) ==
   IF r > Len(roots) THEN acc
-  ELSE LET x == RootSem(words, tree, cfg, roots[r]) IN
-       IF x.quit THEN acc \o x.out ELSE RootsSem(words, tree, cfg, roots, r + 1, acc \o x.out)
+  ELSE LET x == RootSem(words, tree, cfg, roots[r])
+           acc2 == [outs |-> OutCat(acc.outs, x.outs), errs |-> acc.errs + x.errs, sure |-> acc.sure /\ x.sure]
+       IN IF x.quit THEN acc2 ELSE RootsSem(words, tree, cfg, roots, r + 1, acc2)
 
-FindOutput(words, tree, cfg, roots) == RootsSem(words, tree, cfg, roots, 1, <<>>)
+FindResult(words, tree, cfg, roots) == RootsSem(words, tree, cfg, roots, 1, [outs |-> NoOut, errs |-> 0, sure |-> TRUE])
+FindOutput(words, tree, cfg, roots) == FindResult(words, tree, cfg, roots).outs[0]
+\* the exit status is 0 iff nothing was diagnosed
+ExitOK(words, tree, cfg, roots, exit) ==
+  LET r == FindResult(words, tree, cfg, roots) IN r.sure => ((exit # 0) <=> (r.errs > 0))
 
-\* is the behaviour fixed by the properties?  (formats within Printf's domain; no dangling -xtype subtleties; tests defined)
+\* is the behaviour fixed by the properties?  (formats within Printf's domain; patterns within Glob's and Regex's;
+\* ages not negative; every output file named once - two actions naming one file is left open here)
+RECURSIVE QuantCount(_), HasAlt(_)
+QuantCount(e) == (IF e.t \in {"star", "plus", "opt", "rep"} THEN 1 ELSE 0)
+                 + (IF e.t \in {"cat", "alt"} THEN QuantCount(e.a) + QuantCount(e.b)
+                    ELSE IF e.t \in {"grp", "star", "plus", "opt", "rep"} THEN QuantCount(e.a) ELSE 0)
+HasAlt(e) == e.t = "alt" \/ (IF e.t = "cat" THEN HasAlt(e.a) \/ HasAlt(e.b)
+                             ELSE IF e.t \in {"grp", "star", "plus", "opt", "rep"} THEN HasAlt(e.a) ELSE FALSE)
+AllEntries(tree, cfg, roots) ==
+  Flatten([r \in DOMAIN roots |-> IF roots[r].node = 0 THEN <<>>
+                                   ELSE Walk(tree, [cfg EXCEPT !.prune = {}], roots[r].spell, roots[r].node, 0, {}).ents])
 SemDom(words, tree, cfg, roots) ==
   /\ SemParse(words).ok
+  /\ \A i, j \in DOMAIN words : (i # j /\ IsAction(words[i]) /\ IsAction(words[j]) /\ ChanOf(words[i]) # 0) => ChanOf(words[i]) # ChanOf(words[j])
   /\ \A i \in DOMAIN words :
         /\ (words[i].k = "printf" =>
               /\ ParseFmt(Utf8(words[i].fmt)).ok
@@ -88,4 +142,8 @@ SemDom(words, tree, cfg, roots) ==
                    LET u == Walk(tree, [cfg EXCEPT !.prune = {}], roots[r].spell, roots[r].node, 0, {}).ents IN
                    \A k \in DOMAIN u : EntryDom([tree |-> tree, cfg |-> cfg, start |-> roots[r].spell], u[k], ParseFmt(Utf8(words[i].fmt)).comps))
         /\ (words[i].k = "glob" => GlobInDomain(words[i].pat, words[i].fold))
+        \* the shapes on which the engine's first match is the longest one (see the C17 finding)
+        /\ (words[i].k = "regex" => RX!Supported(words[i].ast, cfg.syn) /\ ~HasAlt(words[i].ast) /\ QuantCount(words[i].ast) <= 1)
+        /\ ((words[i].k = "test" /\ words[i].q.p = "age") =>
+              LET u == AllEntries(tree, cfg, roots) IN \A k \in DOMAIN u : TM!AgeInDomain(words[i].q.kind, cfg.now, tree[u[k].eff].tm))
 =============================================================================
